@@ -3312,6 +3312,19 @@ let rec mapM_id = function
 | [] -> Ok []
 | x :: xs -> bind x (fun y -> bind (mapM_id xs) (fun ys -> Ok (y :: ys)))
 
+(** val depth_scan : z -> z res list -> z res **)
+
+let rec depth_scan d0 = function
+| [] -> Ok d0
+| r :: rest ->
+  bind r (fun d -> if Z.eqb d0 d then depth_scan d0 rest else Ok (Zneg XH))
+
+(** val all_regular : bool res list -> bool res **)
+
+let rec all_regular = function
+| [] -> Ok true
+| r :: rest -> bind r (fun b -> if b then all_regular rest else Ok false)
+
 (** val f_purelist_depth : form -> z res **)
 
 let rec f_purelist_depth = function
@@ -3334,10 +3347,9 @@ let rec f_purelist_depth = function
 | FBitMasked (_, _, c, _, _) -> f_purelist_depth c
 | FUnmasked (_, c) -> f_purelist_depth c
 | FUnion (_, _, _, cs) ->
-  bind (mapM_id (map f_purelist_depth cs)) (fun ds -> Ok
-    (match ds with
-     | [] -> Zneg XH
-     | d0 :: rest -> if forallb (Z.eqb d0) rest then d0 else Zneg XH))
+  (match map f_purelist_depth cs with
+   | [] -> Ok (Zneg XH)
+   | r0 :: rest -> bind r0 (fun d0 -> depth_scan d0 rest))
 | FVirtual (_, f0, _) ->
   (match f0 with
    | Some g -> f_purelist_depth g
@@ -3445,9 +3457,7 @@ let rec f_purelist_isregular = function
 | FByteMasked (_, _, c, _) -> f_purelist_isregular c
 | FBitMasked (_, _, c, _, _) -> f_purelist_isregular c
 | FUnmasked (_, c) -> f_purelist_isregular c
-| FUnion (_, _, _, cs) ->
-  bind (mapM_id (map f_purelist_isregular cs)) (fun l -> Ok
-    (forallb (fun b -> b) l))
+| FUnion (_, _, _, cs) -> all_regular (map f_purelist_isregular cs)
 | FVirtual (_, f0, _) ->
   (match f0 with
    | Some g -> f_purelist_isregular g
